@@ -1123,11 +1123,14 @@ var rcvFeatures = []string{"burst", "stdout-data", "stderr-data", "discarded-ext
 	"read-1", "read>avail", "read-stderr", "adjust-sent", "refill-race", "dir-in"}
 var pairCount = map[string]int{}
 
+var seenFeature = map[string]bool{}
+
 func notePairs(list []string, feat map[string]bool) {
 	for i, a := range list {
 		if !feat[a] {
 			continue
 		}
+		seenFeature[a] = true
 		for _, b := range list[i+1:] {
 			if feat[b] {
 				pairCount[a+"+"+b]++
@@ -1163,6 +1166,18 @@ func impossiblePair(a, b string) bool {
 }
 
 func emitPairs(g *hx.Gen) {
+	cnt := func(arms ...string) string {
+		n := 0
+		for _, a := range arms {
+			if seenFeature[a] {
+				n++
+			}
+		}
+		return fmt.Sprintf("%d/%d", n, len(arms))
+	}
+	// the arms of channel.handleData and of the sender's extended-code switch
+	g.Stat("table.handleData-arm=" + cnt("zero-len", "too-large", "wrong-length", "window-exceeded", "stdout-data", "stderr-data", "discarded-ext"))
+	g.Stat("table.write-stream=" + cnt("stdout", "stderr", "ext>1"))
 	for _, list := range [][]string{sndFeatures, rcvFeatures} {
 		for i, a := range list {
 			for _, b := range list[i+1:] {
